@@ -201,8 +201,10 @@ macro_rules! stamp_actor {
 
                 // only in the `debut` modules (consume scenario)
                 $(
-                    $fin fn fin(self, x: i64) -> Option<i64> {
+                    // the parameter carries a name generated code is fond of: the value must still be the caller's
+                    $fin fn fin(self, count: usize) -> Option<i64> {
                         let _g = self.rec.enter();
+                        let x = count as i64;
                         self.rec.push(format!("fin:{x}:{}", self.acc.wrapping_add(x)));
                         Some(self.acc.wrapping_add(x))
                     }
@@ -770,6 +772,25 @@ macro_rules! runners {
                 drop(c);
             }
             let count_before_fin = h.inter_get_count();
+
+            // nofin=1: the consuming method is never called: every handle is simply dropped, the actor of a model WITH a consuming method
+            // must end and be dropped like any other
+            if p.num("nofin", 0)? != 0 {
+                phase("consume: drop every handle");
+                if pend > 0 { rec.open_gate(); }
+                drop(clones);
+                drop(h);
+                let dropped_in_time = wait_until(|| rec.drops.load(SeqCst) >= 1, Duration::from_secs(4));
+                settle(&|| false, Duration::from_millis(700));
+                return Ok(Obj::new(p)
+                    .n("handles", hn as i64)
+                    .n("pending", pend as i64)
+                    .b("nofin", true)
+                    .b("dropped_in_time", dropped_in_time)
+                    .n("drops", rec.drops.load(SeqCst) as i64)
+                    .strs("log_after", &rec.snapshot())
+                    .done());
+            }
 
             phase("consume: fin(7)");
             let fin_slot = Slot::new();
